@@ -1,6 +1,7 @@
 (* C14 — DFA closure constructions realise the corresponding language operations; the finite-language helpers
    compute the set operations their documentation states.  `NoDup (map fst (dD D))` = the keys of a Python dict are unique. *)
 From GT Require Import Base.Prelude Model.DFA Model.NFA Model.DFAOps Model.Lang Proofs.DFAOpsProofs Proofs.LangProofs.
+From GT Require Model.Tokens Model.Naming Proofs.NamingProofs.
 
 Definition W (D : dfa nat) (w : word) : Prop := Forall (fun a => In a (dS D)) w.
 
@@ -64,6 +65,13 @@ Proof.
         (conj l_words_of_length_n_spec (conj l_words_up_to_n_spec (conj l_union_spec (conj l_intersection_spec l_symmetric_difference_spec)))))))).
 Qed.
 
+(* ---- names of product states ('({},{})'.format(q1, q2), Model/Naming.v): the model uses pairs; for state names without a
+   comma (in particular all \w+ names) different pairs get different strings ---- *)
+Theorem C14_product_names_injective : forall p q p' q' : Tokens.token,
+  ~ In 44 p -> ~ In 44 q -> ~ In 44 p' -> ~ In 44 q' ->
+  Naming.pair_name p q = Naming.pair_name p' q' -> p = p' /\ q = q'.
+Proof. exact NamingProofs.pair_name_inj. Qed.
+
 Print Assumptions C14_product.
 Print Assumptions C14_complement.
 Print Assumptions C14_reverse.
@@ -73,3 +81,4 @@ Print Assumptions C14_reachable_states.
 Print Assumptions C14_remove_unreachable.
 Print Assumptions C14_make_total.
 Print Assumptions C14_language_helpers.
+Print Assumptions C14_product_names_injective.
